@@ -306,7 +306,7 @@ func expressibleProfile(r *rng.R, i int) gen.Profile {
 }
 
 func runC04(c *ctx) {
-	c.Rule = "messages built by the constructors (every stream/function pair, 3 wait-bit states, 3 directions, names from a recogniser of what the header lexer reads as one name incl. Unicode and punctuation, trees over all 14 formats with variables, bounded ASCII variables, nested ellipses, every character 0..127 in strings, boundary numbers, floats in shortest form) are printed, checked against the documented print form, parsed (exactly one message, no error, no warning), compared field by field and after completing both sides with the same assignment; conversely every accepted text from the literal/layout generators is parsed, each message printed and parsed again (must be equal: fixed point). non-trivial = non-empty payload or a variable; distinct by printed text Also (rounds 4-8): Variables() verbatim where the original numbers its ellipses in order; messages derived by expanding one ellipsis round-tripped; ellipsis-before-a-list-with-ellipsis shapes; ASCII upper bounds at and beyond 2^24; the same decimal text under F4 and F8 in either order and across messages; the smlParse history devices (probe parse, caller clears the result and parses again)."
+	c.Rule = "messages built by the constructors (every stream/function pair, 3 wait-bit states, 3 directions, names from a recogniser of what the header lexer reads as one name incl. Unicode and punctuation, trees over all 14 formats with variables, bounded ASCII variables, nested ellipses, every character 0..127 in strings, boundary numbers, floats in shortest form) are printed, checked against the documented print form, parsed (exactly one message, no error, no warning), compared field by field and after completing both sides with the same assignment; conversely every accepted text from the literal/layout generators is parsed, each message printed and parsed again (must be equal: fixed point). non-trivial = non-empty payload or a variable; distinct by printed text Also (rounds 4-8): Variables() verbatim where the original numbers its ellipses in order; messages derived by expanding one ellipsis round-tripped; ellipsis-before-a-list-with-ellipsis shapes; ASCII upper bounds at and beyond 2^24; the same decimal text under F4 and F8 in either order and across messages; the smlParse history devices (probe parse, caller clears the result and parses again). Also (round 10): messages that share one list object (two parents built by the factory, two parsed templates filled with it) are each printed, parsed back and compared after all of them exist."
 	c.Assume = []string{"variable base names are not SML keywords", "message names come from gen.NameOK (what the header lexer reads as one name)", "ellipsis names are compared by position"}
 
 	// every stream/function pair x wait-bit state x direction at least once
